@@ -184,7 +184,7 @@ fn input_value(rng: &mut ChaCha8Rng, spec: &Value, gate: &Value, style: usize, p
             0 => F::ZERO,
             1 => F::ONE,
             2 => fc(P - 1),
-            _ => any_value(rng, rng.gen_range(0..10)),
+            _ => { let k = rng.gen_range(0..10); any_value(rng, k) }
         },
     }
 }
@@ -252,8 +252,17 @@ fn run_generators(gate: &G, consts: &[F], inputs: &[(usize, F)], filled: &[(usiz
 // ------------------------------------------------------------------------------------------
 // evaluators
 // ------------------------------------------------------------------------------------------
+fn lift(x: F) -> FE {
+    <FE as FieldExtension<D>>::from_basefield(x)
+}
+fn comps(x: &FE) -> [F; D] {
+    <FE as FieldExtension<D>>::to_basefield_array(x)
+}
+fn from_arr(a: [F; D]) -> FE {
+    <FE as FieldExtension<D>>::from_basefield_array(a)
+}
 fn emb(xs: &[F]) -> Vec<FE> {
-    xs.iter().map(|&x| FE::from_basefield(x)).collect()
+    xs.iter().map(|&x| lift(x)).collect()
 }
 
 fn eval_ext(gate: &G, consts: &[FE], wires: &[FE], h: &HashOut<F>) -> Result<Vec<FE>, String> {
@@ -331,10 +340,10 @@ fn eval_circuit(ec: &EvalCircuit, consts: &[FE], wires: &[FE], h: &HashOut<F>) -
 }
 
 fn is_base(x: &FE) -> bool {
-    x.to_basefield_array()[1] == F::ZERO
+    comps(x)[1] == F::ZERO
 }
 fn fe_json(x: &FE) -> Value {
-    let a = x.to_basefield_array();
+    let a = comps(x);
     json!([a[0].to_canonical_u64(), a[1].to_canonical_u64()])
 }
 
@@ -418,7 +427,7 @@ fn check_entry(e: &Value, idx: usize, o: &Opts, log: &mut Option<NdJson>, tally:
         let consts: Vec<F> = (0..nc).map(|j| match r {
             0 => F::ONE,
             1 => [F::ZERO, fc(P - 1)][j % 2],
-            _ => any_value(&mut rng, rng.gen_range(0..10)),
+            _ => { let k = rng.gen_range(0..10); any_value(&mut rng, k) }
         }).collect();
         let h = HashOut { elements: [0, 1, 2, 3].map(|j| if r == 0 { fc(j as u64) } else { any_value(&mut rng, (r + j) % 10) }) };
         let inputs: Vec<(usize, F)> = spec_inputs.iter().enumerate()
@@ -529,7 +538,7 @@ fn check_entry(e: &Value, idx: usize, o: &Opts, log: &mut Option<NdJson>, tally:
             Ok(bv) => {
                 for (k, v) in bv.iter().enumerate() {
                     tally.evaluations += 1;
-                    let want: Vec<F> = ext_vals[k].iter().map(|x| x.to_basefield_array()[0]).collect();
+                    let want: Vec<F> = ext_vals[k].iter().map(|x| comps(x)[0]).collect();
                     if !ext_vals[k].is_empty() && *v != want {
                         push_cap(&mut viol, json!({"key": format!("C07/evaluators/{kind}"), "detail": "base-batch evaluator differs from the extension evaluator on identical inputs",
                             "batch": rows.len(), "point": k, "base": v.iter().map(|c| c.to_canonical_u64()).collect::<Vec<_>>(),
@@ -543,7 +552,7 @@ fn check_entry(e: &Value, idx: usize, o: &Opts, log: &mut Option<NdJson>, tally:
         match eval_base_batch(&gate, &consts, &rows[..1], &h) {
             Ok(bv) => {
                 tally.evaluations += 1;
-                let want: Vec<F> = ext_vals[0].iter().map(|x| x.to_basefield_array()[0]).collect();
+                let want: Vec<F> = ext_vals[0].iter().map(|x| comps(x)[0]).collect();
                 if !ext_vals[0].is_empty() && bv[0] != want {
                     push_cap(&mut viol, json!({"key": format!("C07/evaluators/{kind}"), "detail": "base-batch evaluator (batch of one) differs from the extension evaluator"}));
                 }
@@ -560,7 +569,7 @@ fn check_entry(e: &Value, idx: usize, o: &Opts, log: &mut Option<NdJson>, tally:
                     picks.push((cext.clone(), emb(&rows[k])));
                 }
                 picks.push((cext.clone(), emb(&rows[rows.len() - 1])));
-                let rx = |rng: &mut ChaCha8Rng| FE::from_basefield_array([any_value(rng, 8), any_value(rng, rng.gen_range(0..10))]);
+                let rx = |rng: &mut ChaCha8Rng| { let k = rng.gen_range(0..10); from_arr([any_value(rng, 8), any_value(rng, k)]) };
                 picks.push(((0..nc).map(|_| rx(&mut rng)).collect(), (0..nw).map(|_| rx(&mut rng)).collect()));
             }
             for (cc, ww) in picks {
@@ -586,15 +595,15 @@ fn check_entry(e: &Value, idx: usize, o: &Opts, log: &mut Option<NdJson>, tally:
         }
         // ---- degree along a random line through the honest row (finite differences)
         if r < 3 {
-            let dir_w: Vec<FE> = (0..nw).map(|_| FE::from_basefield(fc(rng.gen::<u64>()))).collect();
-            let dir_c: Vec<FE> = (0..nc).map(|_| FE::from_basefield(fc(rng.gen::<u64>()))).collect();
+            let dir_w: Vec<FE> = (0..nw).map(|_| lift(fc(rng.gen::<u64>()))).collect();
+            let dir_c: Vec<FE> = (0..nc).map(|_| lift(fc(rng.gen::<u64>()))).collect();
             let m = deg + 3;
             let mut vals: Vec<Vec<FE>> = vec![];
             let mut ok = true;
             for t in 0..=m {
                 let tt = FE::from_canonical_u64(t as u64);
-                let ww: Vec<FE> = honest.iter().zip(&dir_w).map(|(a, d)| FE::from_basefield(*a) + tt * *d).collect();
-                let cc: Vec<FE> = consts.iter().zip(&dir_c).map(|(a, d)| FE::from_basefield(*a) + tt * *d).collect();
+                let ww: Vec<FE> = honest.iter().zip(&dir_w).map(|(a, d)| lift(*a) + tt * *d).collect();
+                let cc: Vec<FE> = consts.iter().zip(&dir_c).map(|(a, d)| lift(*a) + tt * *d).collect();
                 match eval_ext(&gate, &cc, &ww, &h) {
                     Ok(v) => vals.push(v),
                     Err(_) => {
@@ -629,7 +638,7 @@ fn check_entry(e: &Value, idx: usize, o: &Opts, log: &mut Option<NdJson>, tally:
                 for k in [0usize, 1 + (r * 7) % (rows.len() - 1).max(1)] {
                     if k < rows.len() && !ext_vals[k].is_empty() {
                         l.put(&json!({"kind": kind, "g": g, "c": fls(&consts), "h": fls(&h.elements), "w": fls(&rows[k]),
-                            "out": fls(&ext_vals[k].iter().map(|x| x.to_basefield_array()[0]).collect::<Vec<_>>())}));
+                            "out": fls(&ext_vals[k].iter().map(|x| comps(x)[0]).collect::<Vec<_>>())}));
                     }
                 }
             }
